@@ -1,4 +1,5 @@
 import GoRedisModel.Proofs.Table
+import GoRedisModel.Proofs.SourceShapes
 /-! # C10 — ill-formed arguments are rejected without side effects -/
 namespace GoRedis
 
@@ -98,5 +99,12 @@ theorem C10_strlen_missing_key (pf : FloatOracle) (srv : SrvSt) (conn : ConnSt) 
 example : (⟨.xx, b!"xX", []⟩ : Spelled).item = .xx ∧ upper b!"xX" = SetItem.xx.kw := by decide
 example : ((([⟨.nx, b!"NX", []⟩] : List Spelled).map Spelled.item).foldl SetOpt.apply {}).admits .xx = false := by decide
 example : atoi b!"0" = some 0 ∧ (0 : Int) < 1 := by simp [atoi, digitsVal, maxInt]
+
+/-- every executor of the current source reads the kinds of arguments, in the order, and reaches the handler
+operations the model (and for the positional commands the independent grammar) says – regenerated from the source and
+decided by the kernel on every run -/
+theorem C10_source_shapes_match_model :
+    (Generated.executorShapes.all fun e => modelShape e.1 == some (readersOf e.2, handlersOf e.2)) = true :=
+  source_shapes_match_model
 
 end GoRedis
